@@ -182,6 +182,9 @@ func (e *executor) act(tp *simkit.Tape, ch chanRef, now int64, cfg migGenCfg) (m
 	if abortW == 0 {
 		abortW = 1
 	}
+	if t.Phase == phVerifyLdr || t.Phase == phVerifyMem {
+		abortW *= 10 // an operator cancelling late, right after the cutover, is the interesting moment
+	}
 	switch tp.Weighted([]int{24, abortW, 2, 2, 2, 1, 1}) {
 	case 0:
 		return e.workflowCmd(tp, ch, t, v.meta, now, cfg), true
